@@ -12,13 +12,22 @@ What is modelled, as the code is written:
 * `slog.Record`'s attribute storage (`front [5]Attr`, `nFront`, shared `back []Attr`),
   `Record.Clone` and `Record.AddAttrs` including its "!BUG" detection branch.
 * `JSONHybridHandler.WithAttrs`  = `append(slices.Clip(h.textAttrs), attrs...)`,
-  `Enabled`, `newJSONHybridMessage` (severity) and `Handle`
+  `Enabled` (`level >= h.level.Level()` on the `slog.Leveler` field), `newJSONHybridMessage`
+  (severity) and `Handle`
   (clone — see below —, `AddAttrs(h.textAttrs...)`, render through the text handler, strip
   the last byte with Go's slice bounds check, encode).
 * `slog.TextHandler` is the parameter `text` (contract TEXT-1); `encoding/json` is the
   parameter `encode`, for which `goJsonEncode` below is the executable model of
   `json.Encoder.Encode` (escapeHTML off) of the two-field struct; the driver uses it and the
   harness compares it with the real encoder byte for byte on every case.
+
+* The `slog.Leveler` of `HandlerOptions.Level` is a constant `slog.Level` or the one
+  `*slog.LevelVar` of the world (`World.lvar`, changed by `Op.setLevel`).  `newHandler` is
+  `NewJSONHybridHandler` as it is written: it asks the leveler *once* (`lvl =
+  opts.Level.Level()`) and stores that `slog.Level` in the field, so a later `Set` is not seen
+  by any handler of the tree.  `newHandlerDyn` (the leveler itself stored, asked on every
+  `Enabled` call, as the handlers of log/slog do) is the other reading of "the configured
+  level"; it is not what the driver runs.
 
 `Handler.handle` is the model of the *minimally repaired* code (`r = r.Clone()` before
 `r.AddAttrs`); `Handler.handleNoClone` is the code of the unchanged tree, kept for the
@@ -158,27 +167,56 @@ def Record.addAttrs (pol : Policy) (hp : Heap) (r : Record) (attrs : List Attr) 
 
 /-! ### JSONHybridHandler -/
 
+/-- A `slog.Leveler` as `HandlerOptions.Level` holds it: a constant `slog.Level`, or a pointer
+to the one `*slog.LevelVar` of the world (whose current value lives in `World.lvar`; copying
+the interface value copies the pointer, so all copies read the same variable). -/
+inductive Leveler where
+  | const (l : Int)   -- a `slog.Level` value
+  | var               -- the `*slog.LevelVar` of the world
+  deriving DecidableEq, Repr
+
+/-- `lv.Level()` when the world's `*slog.LevelVar` currently holds `lvar` -/
+def Leveler.get (lvar : Int) : Leveler → Int
+  | .const l => l
+  | .var => lvar
+
 /-- `JSONHybridHandler`: the fields that vary between derived handlers (`encoder`, `mu`,
 `bufTextPool` are shared pointers; see `Model/C19Lts.lean`). -/
 structure Handler where
-  level : Int
+  level : Leveler
   attrs : Slice
   deriving DecidableEq, Repr
 
-def newHandler (level : Int) : Handler := { level := level, attrs := Slice.nil }
+/-- `NewJSONHybridHandler`: `lvl := slog.LevelInfo; if opts.Level != nil { lvl =
+opts.Level.Level() }`, then `level: lvl` — the leveler of the options is asked once, when the
+`*slog.LevelVar` holds `lvar`, and the field holds the resulting constant (`level` is
+`slog.LevelInfo` = `.const 0` when the options have none). -/
+def newHandler (level : Leveler) (lvar : Int) : Handler :=
+  { level := .const (level.get lvar), attrs := Slice.nil }
+
+/-- the other reading (not the code): the options' leveler itself is stored, so `Enabled` asks
+it on every call -/
+def newHandlerDyn (level : Leveler) : Handler := { level := level, attrs := Slice.nil }
 
 /-- `WithAttrs`: `textAttrs: append(slices.Clip(h.textAttrs), attrs...)` -/
 def Handler.withAttrs (pol : Policy) (hp : Heap) (h : Handler) (as : List Attr) : Heap × Handler :=
   let r := append pol hp (clip h.attrs) as
   (r.1, { h with attrs := r.2 })
 
+/-- `WithAttrs` of a handler that hands its children the level it sees *now* instead of its
+leveler (a mutant; used for the negative example of tree consistency) -/
+def Handler.withAttrsFrozen (pol : Policy) (hp : Heap) (h : Handler) (lvar : Int) (as : List Attr) :
+    Heap × Handler :=
+  let r := append pol hp (clip h.attrs) as
+  (r.1, { level := .const (h.level.get lvar), attrs := r.2 })
+
 /-- the same derivation without `slices.Clip` (a mutant; used for the negative example) -/
 def Handler.withAttrsNoClip (pol : Policy) (hp : Heap) (h : Handler) (as : List Attr) : Heap × Handler :=
   let r := append pol hp h.attrs as
   (r.1, { h with attrs := r.2 })
 
-/-- `Enabled`: `level >= h.level.Level()` -/
-def Handler.enabled (h : Handler) (l : Int) : Bool := decide (l ≥ h.level)
+/-- `Enabled`: `level >= h.level.Level()`; `lvar` is what the `*slog.LevelVar` holds now -/
+def Handler.enabled (h : Handler) (lvar : Int) (l : Int) : Bool := decide (l ≥ h.level.get lvar)
 
 /-- `slog.LevelError` -/
 def levelError : Int := 8
@@ -216,6 +254,7 @@ inductive Op where
   | withAttrs (parent : Nat) (as : List Attr)   -- creates the next node
   | handle (node rec : Nat)
   | enabled (node : Nat) (lvl : Int)
+  | setLevel (lvl : Int)                        -- `levelVar.Set(lvl)`
   deriving Repr
 
 inductive Out where
@@ -223,11 +262,14 @@ inductive Out where
   | line (b : Bytes)
   | panic (p : GoPanic)
   | en (b : Bool)
+  | set
   deriving Repr, DecidableEq
 
+/-- `lvar` is the current value of the world's `*slog.LevelVar`. -/
 structure World where
   heap : Heap
   handlers : List Handler
+  lvar : Int
   deriving Repr
 
 /-- One operation; `none` = the script refers to a node / record that does not exist (not a
@@ -237,7 +279,7 @@ def World.step (pol : Policy) (text : Int → Nat → List Attr → Bytes)
   | .withAttrs p as => do
     let h ← w.handlers[p]?
     let r := h.withAttrs pol w.heap as
-    pure ({ heap := r.1, handlers := w.handlers ++ [r.2] }, .derived)
+    pure ({ w with heap := r.1, handlers := w.handlers ++ [r.2] }, .derived)
   | .handle n ri => do
     let h ← w.handlers[n]?
     let r ← recs[ri]?
@@ -246,7 +288,8 @@ def World.step (pol : Policy) (text : Int → Nat → List Attr → Bytes)
     | .error p => pure (w, .panic p)
   | .enabled n l => do
     let h ← w.handlers[n]?
-    pure (w, .en (h.enabled l))
+    pure (w, .en (h.enabled w.lvar l))
+  | .setLevel l => pure ({ w with lvar := l }, .set)
 
 def World.run (pol : Policy) (text : Int → Nat → List Attr → Bytes)
     (encode : Bytes → Bytes → Bytes) (recs : List Record) : World → List Op → Option (World × List Out)
